@@ -1,4 +1,5 @@
 import Nstd.Variant.DeepTop
+import Nstd.Variant.DeepTemp
 import Nstd.Variant.LemmasRefine
 /-
   The operations of the deep model on variables against the specification store
@@ -137,6 +138,8 @@ def LeafSupS : LeafS → Prop
   | .lpre s => SrcLit s
   | .aapp s => SrcLit s
   | .set (.lit x) => LitOk x
+  | .set (.list l) => ∀ s ∈ l, SrcLit s
+  | .set (.array l) => ∀ s ∈ l, SrcLit s
   | .clear => True
   | .touch _ => True
   | .lrem _ => True
@@ -154,10 +157,12 @@ theorem srcOk_of (rd vars : Nat → Cell) (s : Src) (hl : SrcLit s) (hv : ∀ w 
 
 theorem leaf_step (ds : DblSem) (rd : Nat → Cell) {h vars e g c} (hd : Held h vars e g c) (lf : LeafS)
     (hsup : LeafSupS lf) (hsrc : ∀ w ∈ lf.vars, rd w = vars w ∧ w < nslots) (y : Val)
-    (hy : (lf.eval (fun w => absCell g (vars w))).apply ds (absCell g c) = some y) (f : Nat) (hf : liveCount h + 2 < f) :
-    ∃ h' c' g', leafOp f ds rd h c lf = some (h', c') ∧ CellStep h vars e g c y 2 h' c' g' := by
+    (hy : (lf.eval (fun w => absCell g (vars w))).apply ds (absCell g c) = some y) (f : Nat)
+    (hf : liveCount h + leafSize lf + 1 < f) :
+    ∃ h' c' g', leafOp f ds rd h c lf = some (h', c') ∧ CellStep h vars e g c y (leafSize lf + 1) h' c' g' := by
   cases lf with
   | assign src =>
+    simp only [leafSize] at hf ⊢
     obtain ⟨h', c', g', r, st⟩ := leaf_assign rd hd src (srcOk_of rd vars src hsup hsrc) f (by omega)
     simp only [LeafS.eval, Leaf.apply, Option.some.injEq] at hy
     subst hy
@@ -165,6 +170,7 @@ theorem leaf_step (ds : DblSem) (rd : Nat → Cell) {h vars e g c} (hd : Held h 
   | set e =>
     cases e with
     | lit x =>
+      simp only [leafSize] at hf ⊢
       have hl : LitOk x := hsup
       simp only [LeafS.eval, ValS.eval, Leaf.apply, Option.some.injEq] at hy
       subst hy
@@ -188,15 +194,37 @@ theorem leaf_step (ds : DblSem) (rd : Nat → Cell) {h vars e g c} (hd : Held h 
       | uint n => exact scalar rfl
       | int64 n => exact scalar rfl
       | uint64 n => exact scalar rfl
-    | list l => exact absurd hsup (by simp [LeafSupS])
-    | array l => exact absurd hsup (by simp [LeafSupS])
+    | list l =>
+      simp only [leafSize] at hf ⊢
+      have hsl : ∀ s ∈ l, SrcLit s := hsup
+      have hok : ∀ s ∈ l, SrcOk rd vars s := fun s hs =>
+        srcOk_of rd vars s (hsl s hs) (fun w hw => hsrc w (by simp only [LeafS.vars, ValS.vars, List.mem_flatMap]; exact ⟨s, hs, hw⟩))
+      obtain ⟨h', c', g', r, st⟩ := leaf_setSeq rd hd false l hok f hf
+      simp only [LeafS.eval, ValS.eval, Leaf.apply, Option.some.injEq] at hy
+      subst hy
+      refine ⟨h', c', g', ?_, ?_⟩
+      · simp only [leafOp, tmpPay]; exact r
+      · exact st
+    | array l =>
+      simp only [leafSize] at hf ⊢
+      have hsl : ∀ s ∈ l, SrcLit s := hsup
+      have hok : ∀ s ∈ l, SrcOk rd vars s := fun s hs =>
+        srcOk_of rd vars s (hsl s hs) (fun w hw => hsrc w (by simp only [LeafS.vars, ValS.vars, List.mem_flatMap]; exact ⟨s, hs, hw⟩))
+      obtain ⟨h', c', g', r, st⟩ := leaf_setSeq rd hd true l hok f hf
+      simp only [LeafS.eval, ValS.eval, Leaf.apply, Option.some.injEq] at hy
+      subst hy
+      refine ⟨h', c', g', ?_, ?_⟩
+      · simp only [leafOp, tmpPay]; exact r
+      · exact st
     | map m => exact absurd hsup (by simp [LeafSupS])
   | clear =>
+    simp only [leafSize] at hf ⊢
     simp only [LeafS.eval, Leaf.apply, Option.some.injEq] at hy
     subst hy
     obtain ⟨h', r, st⟩ := leaf_clear hd f (by omega)
     exact ⟨h', .null, g, by simp only [leafOp, r, Option.map], st.mono 2 (by omega)⟩
   | touch k =>
+    simp only [leafSize] at hf ⊢
     simp only [LeafS.eval, Leaf.apply, Leaf.kind, Leaf.inPlace] at hy
     split at hy
     · rename_i hk
@@ -205,6 +233,7 @@ theorem leaf_step (ds : DblSem) (rd : Nat → Cell) {h vars e g c} (hd : Held h 
       exact ⟨h', c', g', r, st.mono 2 (by omega)⟩
     · cases hy
   | lapp src =>
+    simp only [leafSize] at hf ⊢
     obtain ⟨h', c', g', r, st⟩ := leaf_push ds rd hd false .back src (srcOk_of rd vars src hsup hsrc) f (by omega)
     simp only [LeafS.eval, Leaf.apply, Leaf.kind, Leaf.inPlace, coerce] at hy
     simp at hy; subst hy
@@ -212,6 +241,7 @@ theorem leaf_step (ds : DblSem) (rd : Nat → Cell) {h vars e g c} (hd : Held h 
     rw [← r]; simp only [leafOp, seqKind, Bool.false_eq_true, if_false]
     congr 1; funext s1 p; cases p <;> rfl
   | lpre src =>
+    simp only [leafSize] at hf ⊢
     obtain ⟨h', c', g', r, st⟩ := leaf_push ds rd hd false .front src (srcOk_of rd vars src hsup hsrc) f (by omega)
     simp only [LeafS.eval, Leaf.apply, Leaf.kind, Leaf.inPlace, coerce] at hy
     simp at hy; subst hy
@@ -219,6 +249,7 @@ theorem leaf_step (ds : DblSem) (rd : Nat → Cell) {h vars e g c} (hd : Held h 
     rw [← r]; simp only [leafOp, seqKind, Bool.false_eq_true, if_false]
     congr 1; funext s1 p; cases p <;> rfl
   | aapp src =>
+    simp only [leafSize] at hf ⊢
     obtain ⟨h', c', g', r, st⟩ := leaf_push ds rd hd true .back src (srcOk_of rd vars src hsup hsrc) f (by omega)
     simp only [LeafS.eval, Leaf.apply, Leaf.kind, Leaf.inPlace, coerce] at hy
     simp at hy; subst hy
@@ -226,6 +257,7 @@ theorem leaf_step (ds : DblSem) (rd : Nat → Cell) {h vars e g c} (hd : Held h 
     rw [← r]; simp only [leafOp, seqKind, if_true]
     congr 1; funext s1 p; cases p <;> rfl
   | lrem i =>
+    simp only [leafSize] at hf ⊢
     simp only [LeafS.eval, Leaf.apply, Leaf.kind, Leaf.inPlace, coerce] at hy
     simp at hy
     obtain ⟨hi, hy⟩ := hy; subst hy
@@ -234,6 +266,7 @@ theorem leaf_step (ds : DblSem) (rd : Nat → Cell) {h vars e g c} (hd : Held h 
     rw [← r]; simp only [leafOp, seqKind, Bool.false_eq_true, if_false]
     congr 1; funext s1 p; cases p <;> rfl
   | arem i =>
+    simp only [leafSize] at hf ⊢
     simp only [LeafS.eval, Leaf.apply, Leaf.kind, Leaf.inPlace, coerce] at hy
     simp at hy
     obtain ⟨hi, hy⟩ := hy; subst hy
@@ -242,16 +275,19 @@ theorem leaf_step (ds : DblSem) (rd : Nat → Cell) {h vars e g c} (hd : Held h 
     rw [← r]; simp only [leafOp, seqKind, if_true]
     congr 1; funext s1 p; cases p <;> rfl
   | mput k src =>
+    simp only [leafSize] at hf ⊢
     obtain ⟨h', c', g', r, st⟩ := leaf_mput ds rd hd k src (srcOk_of rd vars src hsup hsrc) f hf
     simp only [LeafS.eval, Leaf.apply, Leaf.kind, Leaf.inPlace, coerce] at hy
     simp at hy; subst hy
     exact ⟨h', c', g', by simp only [leafOp]; exact r, st⟩
   | mrem k =>
+    simp only [leafSize] at hf ⊢
     obtain ⟨h', c', g', r, st⟩ := leaf_mrem ds hd k f hf
     simp only [LeafS.eval, Leaf.apply, Leaf.kind, Leaf.inPlace, coerce] at hy
     simp at hy; subst hy
     exact ⟨h', c', g', by simp only [leafOp]; exact r, st⟩
   | sapp t =>
+    simp only [leafSize] at hf ⊢
     obtain ⟨h', c', g', r, st⟩ := leaf_sapp ds hd t f hf
     simp only [LeafS.eval, Leaf.apply, Leaf.kind, Leaf.inPlace, coerce] at hy
     simp at hy; subst hy
